@@ -63,7 +63,7 @@ pub fn run_c06(tier: Tier, seed: u64, index: u64, scratch: &Scratch, rec: &mut R
         rec.evaluations += 1;
         rec.vacuous += 1;
         rec.vacuous_why.push(o.no_layout.clone().unwrap_or_else(|| o.verdicts.first().map(|v| v.short()).unwrap_or_default()).chars().take(160).collect());
-        return;
+        // judged all the same: the oracle is a necessary condition for Ok
     }
     let depth_max = max_depth(&b.root).min(2);
     let year: i128 = 365 * 86_400;
@@ -195,7 +195,6 @@ pub fn run_c08(tier: Tier, seed: u64, index: u64, scratch: &Scratch, rec: &mut R
         for f in j.findings {
             rec.cross.push(f);
         }
-        return;
     }
     let stages: &[Option<F>] = &[
         None,
